@@ -18,34 +18,128 @@ from hv.props.c02 import gen_future_program
 MODES = ["plain", "trace", "evtrace", "ctl", "ctl", "ctl", "reset", "reset-src"]
 
 
+def _targets(prog):
+    """(entity, kind) pairs worth sending an event to: mostly ones with a handler"""
+    ts = [(d["ent"], d["kind"]) for d in prog["defs"] if d["kind"] < 20]
+    ts += [(p["tgt"], p["kind"]) for p in prog["pre"] if p["kind"] < 20]
+    return ts or [(0, 1)]
+
+
+def _sch(rng, prog):
+    """sim.schedule(Event(...)) from outside: absolute grid times (where the program's ties are) or the
+    current clock plus a grid delay"""
+    tgt, kind = rng.choice(_targets(prog))
+    small = max(prog["times"]) < 10**6
+    if rng.random() < 0.5:
+        return ["SCH", tgt, kind, "A", rng.choice(prog["times"]), rng.choice([0, 0, 0, 1])]
+    return ["SCH", tgt, kind, "R", rng.choice([0, 0, 0, 1, 1000, 1000, 2000] if small else [0, 0, 0, 1, 10**9, 10**9, 2 * 10**9]),
+            rng.choice([0, 0, 0, 1])]
+
+
+def _bp(rng, prog):
+    kinds = sorted({k for _, k in _targets(prog)})
+    r = rng.random()
+    if r < 0.4:
+        return ["BT", rng.choice(prog["times"]), rng.choice([0, 1])]
+    if r < 0.75:
+        return ["BC", rng.randint(1, 12), rng.choice([0, 1, 1])]
+    return ["BK", rng.choice(kinds), rng.choice([0, 1])]
+
+
 def gen_script(rng: random.Random, prog):
-    cmds = [["P"], ["G"]] if rng.random() < 0.6 else []
-    for _ in range(rng.randint(0, 8)):
-        r = rng.random()
-        if r < 0.35:
-            cmds.append(["S", rng.choice([1, 1, 2, 3, 5, 20])])
-        elif r < 0.5:
+    shape = rng.random()
+    cmds = []
+    if shape < 0.2:
+        # several breakpoints armed at once, then run / resume / step until they have all had their chance
+        if rng.random() < 0.4:
+            cmds += [["P"], ["G"]]
+        cmds += [_bp(rng, prog) for _ in range(rng.randint(2, 4))]
+        for _ in range(rng.randint(3, 8)):
+            r = rng.random()
+            cmds.append(["G"] if r < 0.6 else ["S", rng.choice([1, 2, 3, 5])] if r < 0.85 else _bp(rng, prog))
+    elif shape < 0.4:
+        # a run driven for a while, reset(), and driven again (the budget / request / breakpoints of the
+        # first round must not leak into the second)
+        cmds += rng.choice([[["P"], ["G"]], [["P"], ["G"]], [["BC", rng.randint(1, 6), 1], ["G"]], [["HP", rng.randint(1, 5)], ["G"]], [["G"]]])
+        for _ in range(rng.randint(0, 3)):
+            r = rng.random()
+            cmds.append(["S", rng.choice([1, 2, 3, 5, 20])] if r < 0.6 else ["G"] if r < 0.75 else ["P"] if r < 0.85 else _sch(rng, prog))
+        cmds.append(["RST"])
+        if rng.random() < 0.25:
+            cmds.append(_sch(rng, prog))
+        if rng.random() < 0.3:
+            cmds.append(rng.choice([["P"], _bp(rng, prog)]))
+        cmds.append(["G"])
+        for _ in range(rng.randint(0, 3)):
+            r = rng.random()
+            cmds.append(["S", rng.choice([1, 2, 3])] if r < 0.4 else ["G"] if r < 0.7 else ["RST"] if r < 0.8 else ["P"])
+        if cmds[-1][0] == "RST":
             cmds.append(["G"])
-        elif r < 0.6:
-            cmds.append(["P"])
-        elif r < 0.7:
-            cmds.append(["BT", rng.choice(prog["times"]), rng.choice([0, 1])])
-        elif r < 0.8:
-            cmds.append(["BC", rng.randint(1, 12), rng.choice([0, 1])])
-        elif r < 0.88:
-            cmds.append(["BK", rng.randint(1, 6), rng.choice([0, 1])])
-        elif r < 0.93:
-            cmds.append(["CLR"])
-        else:
-            cmds.append(["HP", rng.randint(1, 10)])
+    elif shape < 0.6:
+        # events scheduled from outside while the run is paused (and before it starts)
+        if rng.random() < 0.3:
+            cmds.append(_sch(rng, prog))
+        cmds += [["P"], ["G"]]
+        for _ in range(rng.randint(2, 7)):
+            r = rng.random()
+            cmds.append(["S", rng.choice([1, 1, 2, 3, 5])] if r < 0.5 else _sch(rng, prog) if r < 0.9 else ["G"])
+    else:
+        cmds = [["P"], ["G"]] if rng.random() < 0.6 else []
+        for _ in range(rng.randint(0, 8)):
+            r = rng.random()
+            if r < 0.33:
+                cmds.append(["S", rng.choice([1, 1, 2, 3, 5, 20])])
+            elif r < 0.47:
+                cmds.append(["G"])
+            elif r < 0.56:
+                cmds.append(["P"])
+            elif r < 0.78:
+                cmds.append(_bp(rng, prog))
+            elif r < 0.83:
+                cmds.append(["CLR"])
+            elif r < 0.9:
+                cmds.append(["HP", rng.randint(1, 10)])
+            elif r < 0.95:
+                cmds.append(_sch(rng, prog))
+            else:
+                cmds.append(["RST"])
     if not any(c[0] == "G" for c in cmds):
         cmds.insert(0, ["G"])
-    # a step before the first run() is an API error; keep scripts valid
-    first_go = next(i for i, c in enumerate(cmds) if c[0] == "G")
-    cmds = [c for i, c in enumerate(cmds) if not (c[0] == "S" and i < first_go)]
-    cmds.append(["CLR"])
+    # a step before run() is an API error; keep scripts valid (the driver skips a step when no run is in progress)
+    if rng.random() < 0.85:
+        cmds.append(["CLR"])
     cmds.append(["FIN"])
     return cmds
+
+
+def make_stateless(prog):
+    """entity-side state survives reset(): keep only programs whose entities have none (no futures, crash
+    flags, event handles, pre-created events), and pre-run events that reset() replays faithfully"""
+    for p in prog["pre"]:
+        p["hook"] = 0
+        p["cancelled"] = False
+    prog["defs"] = [d for d in prog["defs"] if not any(
+        a[0] in ("R", "A", "L", "N", "C", "U") for s in d["segs"] for a in s["acts"]) and not any(
+        s["term"][0] == "W" for s in d["segs"])]
+    # handles to events (for cancel) are entity state too, and the replayed pre-run events are
+    # new objects the scripted entities hold no handle to
+    prog["defs"] = [dict(d, segs=[dict(s, acts=[a for a in s["acts"] if a[0] not in ("X", "RH", "EA")]) for s in d["segs"]])
+                    for d in prog["defs"]]
+    prog.pop("held", None)   # pre-created events held by entities are entity state as well
+
+
+def pre_run_injections(script):
+    """the SCH commands that take effect before a run() (they join the pre-run schedule that reset() replays),
+    as (tgt, kind, time, daemon); the clock is 0 whenever no run has started"""
+    started, out = False, []
+    for c in script:
+        if c[0] == "G":
+            started = True
+        elif c[0] == "RST":
+            started = False
+        elif c[0] == "SCH" and not started:
+            out.append((c[1], c[2], c[4], c[5]))
+    return out
 
 
 class C04(core.Property):
@@ -53,7 +147,9 @@ class C04(core.Property):
     driver = "drv-c04"
     lake_targets = ["HappyProofs.C04.Props", "drv-c04"]
     audit_imports = ["HappyProofs.C04.Props"]
-    lean_files = ["HappyModel/C01/*.lean", "HappyModel/C04/*.lean", "HappyProofs/C04/*.lean", "HappyModel/Proto.lean", "Driver/C04.lean"]
+    lean_files = ["HappyModel/C01/*.lean", "HappyModel/C04/*.lean", "HappyProofs/C04/*.lean", "HappyProofs/C01/*.lean",
+                  "HappyProofs/C03/Rename.lean", "HappyProofs/C03/Props.lean", "HappyModel/C03/*.lean",
+                  "HappyModel/Proto.lean", "Driver/C04.lean"]
     variants = ["contgate", "current"]
     theorems = [
         "HappyModel.C04.run_add",
@@ -62,26 +158,42 @@ class C04(core.Property):
         "HappyModel.C04.control_invariance",
         "HappyModel.C04.step_exact",
         "HappyModel.C04.stepWith_processed",
+        "HappyModel.C04.breakpoint_first",
+        "HappyModel.C04.breakpoint_pause_cause",
+        "HappyModel.C04.oneshot_removed_only_if_fired",
+        "HappyModel.C04.no_cause_no_pause",
+        "HappyModel.C04.reset_clears_control",
+        "HappyModel.C04.reset_state_is_init",
+        "HappyModel.C04.reset_replays",
+        "HappyModel.C04.inject_inv",
+        "HappyModel.C04.injected_is_youngest",
+        "HappyModel.C04.session_inv",
+        "HappyModel.C04.session_fifo",
     ]
-    partial_theorems = {
-        "breakpoint_first": "a breakpoint pauses right after the first delivery that satisfies it: true by construction of ctlLoop (the check follows every delivery); compared on every run, not stated as a separate theorem",
-        "reset_replays": "reset()+run() repeating the delivery sequence is compared on every run (mode reset) against the plain model; no theorem (reset is outside the loop model)",
-    }
+    partial_theorems = {}
     quick_cases = 900
-    thorough_cases = 40000
+    thorough_cases = 30000
     case_timeout_s = 30
     rule = ("a C01 or C02 program × an observation mode: plain / InMemoryTraceRecorder / enable_event_tracing() / control attached and "
-            "driven by a generated script of pause, run, step(n), resume, time / count / event-type breakpoints (one-shot or not), "
-            "clear, pausing on_event hook / reset()+run(). After every control command get_state() is compared; at the end the "
-            "entity-side delivery log. Non-trivial = the run was interrupted at least once or observed by a recorder; distinct = "
-            "distinct transcript")
+            "driven by a generated script of pause, run, step(n), resume, time / count / event-type breakpoints (one-shot or not, "
+            "several armed at once), clear, pausing on_event hook, reset() between rounds (after pause / step / breakpoint rounds, "
+            "with and without stateless entities), sim.schedule() of an event from outside before a run and while it is paused "
+            "(timestamps on the program's tie grid or at the current clock) / reset()+run(). After every control command get_state() "
+            "and the (ordinal, time, type) of every processed event seen by an on_event observer are compared; at the end the "
+            "entity-side delivery log. The Lean Spec replays the user's commands over the implementation's own stream (breakpoint "
+            "pauses right after the first satisfying delivery, step exact, pause request honoured, no pause without a cause, reset "
+            "repeats the original run) and runs the C01 trace Spec on every round. Non-trivial = the run was interrupted at least "
+            "once or observed by a recorder; distinct = distinct transcript")
     trusted_base = [
         "hv/engine_harness.py scripted entities",
-        "control scripts never call the API in a state where it raises (step before run, resume when not paused)",
+        "control scripts never call the API in a state where it raises (step before run, resume when not paused); run() is not called again on a completed run; schedule() from outside only before a run or while paused",
         "reset mode: pre-run events carry no completion hooks and are not pre-cancelled (reset() replays time/type/target/daemon/metadata only)",
+        "programs that are reset do not wait on futures (a process parked by the abandoned run would make the code refuse its successor)",
+        "end line after a run with no new summary (reset as last command) is read from Simulation._build_summary()",
     ]
     assumptions = [
         "observation devices (read-only hooks, trace recorder, event tracing) are not in the model: the passive modes must equal the plain model run",
+        "auto-termination grades of the C01 trace Spec (engine/autoterm/*) are left to C01; C04 judges order, uniqueness, liveness of the trace",
     ]
 
     def generate(self, rng, i, tier):
@@ -90,6 +202,13 @@ class C04(core.Property):
         prog["mode"] = mode
         if mode == "ctl":
             prog["script"] = gen_script(rng, prog)
+            if any(c[0] == "RST" for c in prog["script"]):
+                # a process left parked on a future by the abandoned run would meet its successor there (the
+                # code refuses a second waiter): no waiting on futures in programs that are reset
+                prog["defs"] = [d for d in prog["defs"] if not any(s["term"][0] == "W" for s in d["segs"])]
+                if rng.random() < 0.6:
+                    make_stateless(prog)
+                    prog["stateless"] = True
         if mode == "reset-src":
             # load sources / probes are re-primed by reset(); their first ticks tie with pre-run events
             small = max(prog["times"]) < 10**6
@@ -99,18 +218,7 @@ class C04(core.Property):
                                for _ in range(rng.randint(1, 2))]
             prog["end"] = 20000 if small else 10**10    # a source ticks forever: the run needs a horizon
         if mode in ("reset", "reset-src"):
-            for p in prog["pre"]:
-                p["hook"] = 0
-                p["cancelled"] = False
-            # state that survives reset() (futures, crash flags) is entity state: keep the model stateless
-            prog["defs"] = [d for d in prog["defs"] if not any(
-                a[0] in ("R", "A", "L", "N", "C", "U") for s in d["segs"] for a in s["acts"]) and not any(
-                s["term"][0] == "W" for s in d["segs"])]
-            # handles to events (for cancel) are entity state too, and the replayed pre-run events are
-            # new objects the scripted entities hold no handle to
-            prog["defs"] = [dict(d, segs=[dict(s, acts=[a for a in s["acts"] if a[0] not in ("X", "RH", "EA")]) for s in d["segs"]])
-                            for d in prog["defs"]]
-            prog.pop("held", None)   # pre-created events held by entities are entity state as well
+            make_stateless(prog)
         prog["family"] = f"{mode}/" + ("auto" if prog["end"] is None else "end")
         if mode == "reset-src":
             prog["family"] += " (judge only: load sources are not in the Lean model)"
@@ -159,11 +267,14 @@ class C04(core.Property):
         # control script
         from happysimulator.core.control.breakpoints import EventCountBreakpoint, EventTypeBreakpoint, TimeBreakpoint
         ctl = sim.control
-        states = []
+        stream = []     # d / fr / st lines in order of occurrence
 
-        def st():
+        def st(hd="st"):
             s = ctl.get_state()
-            states.append(f"st {s.current_time.nanoseconds} {s.events_processed} {1 if s.is_paused else 0} {1 if s.is_running else 0}")
+            stream.append(f"{hd} {s.current_time.nanoseconds} {s.events_processed} {1 if s.is_paused else 0} {1 if s.is_running else 0}")
+
+        # a read-only observer: ordinal, time and type of every processed event
+        ctl.on_event(lambda ev: stream.append(f"d {ctl.get_state().events_processed} {ev.time.nanoseconds} {ev.event_type[1:]}"))
 
         def driver(sim):
             summary = None
@@ -179,9 +290,7 @@ class C04(core.Property):
                     elif ctl.is_paused:
                         summary = ctl.resume()
                 elif op == "S":
-                    if started and ctl.is_running and ctl.is_paused:
-                        summary = ctl.step(c[1])
-                    elif started and ctl.is_running:
+                    if started and ctl.is_running:
                         summary = ctl.step(c[1])
                 elif op == "BT":
                     ctl.add_breakpoint(TimeBreakpoint(time=h.Instant(c[1]), one_shot=bool(c[2])))
@@ -194,10 +303,19 @@ class C04(core.Property):
                 elif op == "HP":
                     k = c[1]
                     ctl.on_event(lambda ev, k=k: ctl.pause() if ctl.get_state().events_processed == k else None)
+                elif op == "RST":
+                    h.reset()
+                    started = False
+                    summary = None
+                elif op == "SCH":
+                    if not started or ctl.is_paused:
+                        t = c[4] + (h.clock_ns() if c[3] == "R" else 0)
+                        h.inject(t, c[1], c[2], c[5], pre_run=not started)
                 elif op == "FIN":
                     n = 0
                     while ctl.is_paused and n < 200:
                         summary = ctl.resume()
+                        st("fr")
                         n += 1
                 st()
             if summary is None:
@@ -208,7 +326,7 @@ class C04(core.Property):
         # the end line's last field: 1 = completed
         s = ctl.get_state()
         out[-1] = out[-1].rsplit(" ", 1)[0] + (" 0" if s.is_running else " 1")
-        return states + out
+        return stream + out + ["#trace"] + h.trace
 
     @staticmethod
     def _sources(h, case):
@@ -224,14 +342,28 @@ class C04(core.Property):
         """the same program, uninterrupted and unobserved, on the same implementation"""
         ref = dict(case)
         ref["mode"] = "plain"
+        if case["mode"] == "ctl":
+            # events scheduled from outside before a run() are part of the pre-run schedule
+            ref["pre"] = list(case["pre"]) + [dict(tgt=tgt, kind=kind, time=t, daemon=bool(dm), hook=0, cancelled=False)
+                                              for tgt, kind, t, dm in pre_run_injections(case["script"])]
         h = Harness(ref)
         h.build(**self._sources(h, ref))
         return h.run()
 
+    @staticmethod
+    def _parts(impl_out):
+        """observed transcript / recorded trace / reference log"""
+        marks = {m: impl_out.index(m) for m in ("#trace", "#ref") if m in impl_out}
+        cut = min(marks.values()) if marks else len(impl_out)
+        obs = impl_out[:cut]
+        trace = impl_out[marks["#trace"] + 1:marks.get("#ref", len(impl_out))] if "#trace" in marks else []
+        ref = impl_out[marks["#ref"] + 1:] if "#ref" in marks else None
+        return obs, trace, ref
+
     def compare_view(self, case, impl_out):
         if case["mode"] == "reset-src":
             return ["judge-only"]
-        return impl_out[:impl_out.index("#ref")] if "#ref" in impl_out else impl_out
+        return self._parts(impl_out)[0]
 
     def model_postprocess(self, case, out):
         return ["judge-only"] if case["mode"] == "reset-src" else out
@@ -239,17 +371,25 @@ class C04(core.Property):
     def judge_block(self, case, impl_out):
         if (impl_out and impl_out[0].startswith("IMPL-")) or "#ref" not in impl_out:
             return None
-        k = impl_out.index("#ref")
-        obs, ref = impl_out[:k], impl_out[k + 1:]
-        sts = [l for l in obs if l.startswith("st ")]
-        log = [l for l in obs if not l.startswith("st ")]
-        body = []
-        if case["mode"] == "ctl":
-            for c, st in zip(case["script"], sts):
-                body.append("cmd " + " ".join(str(x) for x in c))
-                body.append(st)
+        obs, trace, ref = self._parts(impl_out)
+        ctl = case["mode"] == "ctl"
+        stream = [l for l in obs if l.split(" ", 1)[0] in ("d", "st", "fr")]
+        log = obs[len(stream):]
+        body = [f"mode {case['mode']}", f"stateless {1 if case.get('stateless') else 0}"]
+        if ctl:
+            # every command is followed by exactly one `st` line: put the command in front of its lines
+            it = iter(case["script"])
+            cur = next(it, None)
+            if cur is not None:
+                body.append("cmd " + " ".join(str(x) for x in cur))
+            for l in stream:
+                body.append(l)
+                if l.startswith("st "):
+                    cur = next(it, None)
+                    if cur is not None:
+                        body.append("cmd " + " ".join(str(x) for x in cur))
         # the completed flag of the end line is not part of the comparison
-        return ("judge", body + ["#log"] + log + ["#ref"] + ref)
+        return ("judge", body + ["#log"] + log + ["#ref"] + ref + (["#trace"] + trace if ctl else []))
 
     # ------------------------------------------------------------------ model
     def model_block(self, case, variant):
@@ -269,7 +409,7 @@ class C04(core.Property):
     def shrink(self, case):
         if case.get("script"):
             sc = case["script"]
-            for i in range(len(sc) - 2):
+            for i in range(len(sc) - 1):
                 c = dict(case)
                 c["script"] = sc[:i] + sc[i + 1:]
                 if any(x[0] == "G" for x in c["script"]):
